@@ -85,7 +85,7 @@ func driveC14(o opts) error {
 	g := gen.New(o.seed)
 	w := emit.New("C14", o.out)
 	w.ShardSize = 20
-	ncases, ntxn := 40, 6
+	ncases, ntxn := 40, 10
 	if o.tier == "thorough" {
 		ncases, ntxn = 500, 12
 	}
